@@ -1,6 +1,7 @@
 """C16 - an I/O error stops the writer cleanly and never corrupts the database (error discipline core)."""
 import re
 import core, lib, errdisc
+from props import shared
 from core import call_matches, call_names, op_place, backward_slice
 
 LEVEL = 'other'
@@ -47,6 +48,8 @@ UNWRAP_OK = [
 
 def run(ctx):
     F = ctx.F
+    # reads keep returning committed data after a failed write: overlay entries leave only after the record was published successfully
+    shared.handover_order(ctx, '7')
     n = prop = stored = unw = local = 0
     local_counts = {}
     for b, bi, t in errdisc.fallible_sites(F):
